@@ -18,6 +18,16 @@ dicts do; `d.KeyInj key` says that `key` (the code point, by which Python compar
 one-character strings) is injective on the alphabet.  Word order is `lexLt key` = Python's `<`
 on strings.  The functions are those a *fresh* object computes; C20 proves that caches never
 change them.
+
+Two clauses need care.  (1) "len of a finite language": the method `__len__` is `cardinality()`
+(`C13_cardinality`), but the builtin `len(dfa)` converts its result to a `Py_ssize_t`: from 2^63
+words on it raises `OverflowError` (`DFA.lenBuiltin`, Model/DFALen.lean).  `C13_len` is the
+statement that holds, `C13_len_full_fails` refutes the unrestricted one with a concrete finite
+language (open finding `C13:len-overflow-2^63`).  (2) "every such word is equally likely" is a
+statement about the OUTPUT of `randomWord`: `C13_random_output_iff` characterises the event
+`randomWord k cs = .ok w` and `C13_random_uniform_output` computes its probability, `1/count`,
+over the loop's own draw tree (every `randint(0, total-1)` result uniform on its range and
+independent of the earlier ones).
 -/
 import AutomataVerif.Proofs.Query
 import AutomataVerif.Proofs.Random
